@@ -116,7 +116,7 @@ def gen_history(run_seed: int, tier: str, plugin: Optional[str] = None) -> Dict[
     for i in range(n_pre):
         x = r.random()
         if x < 0.30:
-            ops.append(["PLACE", r.choice(["stale_owned", "stale_owned", "foreign", "empty_pkg_dir", "committed_copy"]), r.randrange(2**32)])
+            ops.append(["PLACE", r.choice(["stale_owned", "stale_realname", "stale_realname", "foreign", "empty_pkg_dir", "committed_copy"]), r.randrange(2**32)])
         elif x < 0.45:
             ops.append(["RUN_OTHER", r.choice(OTHER[plugin]), gen_model_spec(r, "python", tier, allow_full=False), gw.env_for(run_seed, f"other{i}", re_)])
         else:
@@ -132,6 +132,8 @@ def gen_history(run_seed: int, tier: str, plugin: Optional[str] = None) -> Dict[
                 else:
                     fault = {"kind": kind, "on": "write", "at": rf.randint(1, max(1, est)) if rf.random() < 0.7 else 1,
                              "frac": rf.choice([0.0, 0.1, 0.5, 0.9, 0.999])}
+            if fault and fault.get("on") == "unlink" and plugin in ("dotnet", "testdata"):
+                ops.append(["RUN", variant_of(M, r), gw.env_for(run_seed, f"prep{i}", re_), None])
             ops.append(["RUN", Mp, gw.env_for(run_seed, f"pre{i}", re_), fault])
     reps = r.choice([1, 1, 2, 3])
     finals = [gw.env_for(run_seed, f"final{i}", re_) for i in range(reps)]
@@ -199,7 +201,7 @@ def execute(h: Dict[str, Any]) -> Dict[str, Any]:
     plugin = h["plugin"]
     w = gw.World(f"c16-{h['run_seed']}")
     viol: List[Dict[str, str]] = []
-    probes = {k: 0 for k in ["stale_owned_placed", "foreign_placed", "empty_pkg_dir_placed", "committed_copy_placed",
+    probes = {k: 0 for k in ["stale_owned_placed", "stale_realname_placed", "foreign_placed", "empty_pkg_dir_placed", "committed_copy_placed",
                              "cleanup_removed_stale", "stale_overwritten", "fault_fired", "fault_not_reached", "faulted_run_failed",
                              "faulted_run_left_partial", "other_plugin_tree", "merge_files", "different_model_before", "listing_permuted",
                              "test_dir_used", "uuid_checked"]}
@@ -235,7 +237,19 @@ def execute(h: Dict[str, Any]) -> Dict[str, Any]:
 
         # ---- earlier states ------------------------------------------------------------------------
         for i, op in enumerate(h["ops"]):
-            if op[0] == "PLACE":
+            if op[0] == "PLACE" and op[1] == "stale_realname":
+                # wrong bytes under names the target model really produces (what an interrupted or
+                # older run of a related model leaves behind)
+                pr = random.Random(op[2])
+                names = sorted(ref_owned)
+                for nm in pr.sample(names, min(len(names), pr.randint(1, 4))):
+                    pth = out / nm
+                    pth.parent.mkdir(parents=True, exist_ok=True)
+                    good = ref_owned[nm]
+                    pth.write_bytes(pr.choice([b"", good[: len(good) // 2], b'{"stale": true}', good + b"\n// trailing junk\n", good.replace(b"a", b"b", 1)]))
+                probes["stale_realname_placed"] += 1
+                evlog.append(["PLACE", op[1]])
+            elif op[0] == "PLACE":
                 _place(op[1], op[2], plugin, out, probes)
                 evlog.append(["PLACE", op[1]])
             elif op[0] == "RUN_OTHER":
@@ -250,6 +264,10 @@ def execute(h: Dict[str, Any]) -> Dict[str, Any]:
                 fault = dict(op[3]) if op[3] else None
                 if fault and fault.get("on") == "write" and fault["at"] > 1 and plugin in ("dotnet", "testdata"):
                     fault["at"] = 1 + (fault["at"] - 1) % max(1, ref_writes)
+                if fault and fault.get("on") == "unlink":
+                    n_owned = len(gw.owned_files(plugin, out))
+                    if n_owned:
+                        fault["at"] = 1 + (fault["at"] - 1) % n_owned
                 before_main = (td / "src" / "main.rs").read_bytes() if (td / "src" / "main.rs").exists() else None
                 r1 = gw.run_generator(w, plugin, str(out), str(td), fp, op[2], fault=fault, root=str(out))
                 fired = [e for e in r1["events"] if e["ev"] == "fault"]
